@@ -71,7 +71,7 @@ func freeJobs(r *ev.Run) []job {
 			sets := [][]int{rng(0, n), rng(1, n+1)}
 			obs := append(rng(0, n+1), outsider)
 			msgIdx := []int{0, 1}
-			if n <= 2 {
+			if n == 1 || (n == 2 && r.Thorough()) {
 				msgIdx = []int{0, 1, 2}
 			}
 			depth := r.Pick(6, 7)
